@@ -69,6 +69,9 @@ def run(ctx):
     _rowgroupby(ctx, rep)
     _groupselect(ctx, rep)
     _keyless(ctx, rep)
+    from .plumbing import check_plumbing
+    rep.rule('R9.7', 'view -> iterator plumbing of the grouping operators: self.X reaches the parameter named X')
+    ctx.floor('plumbing_sites', check_plumbing(ctx, rep, 'R9.7', ['petl.transform.reductions', 'petl.transform.dedup', 'petl.transform.reshape']), 35)
     ctx.floor('grouping_views', n, 7)
 
 
